@@ -252,3 +252,83 @@ Example C04_seeded_nonvacuous :
   im_eidx (k_st (kafter replay (rp_seed eps2) imp (knew replay (rp_seed eps2) imp 0)
                         [KSeed 1; KConfig (3, AGenerate); KNext; KNext; KNext; KNext; KNext])) = 2.
 Proof. repeat split; vm_compute; reflexivity. Qed.
+
+(* ------------------------------------------------------------------------------------------------------------
+   STOCHASTIC PATTERNS THAT CONTAIN STOCHASTIC PATTERNS (PSkip(PWhite(..), p), PCoin(PWhite(..)), PShuffleInput(PBrown(..), 4),
+   PRandomWalk(v, max=PWhite(..)) ...).  Model Pat/SeededNest.v (lemmas Pat/SeededNestProofs.v): the PARENT owns a generator
+   and a stored seed, every CHILD is a seedable object of Pat/Seeded.v with a generator, a stored seed and a class of its
+   own; __next__ of the parent is ANY program over "draw from my own generator" and "next value of child i"; reset() of the
+   parent resets every child to the CHILD's stored seed and re-seeds the parent's generator with the PARENT's stored seed;
+   seed(s) of the parent touches the parent's stream only.  Histories: next / reset / seed of the parent / seed of a child (the
+   caller kept a reference), any order and number.  [pplain] / [kplain]: reset() leaves what the constructor leaves; seed() on a
+   new object leaves what the constructor would have left with that generator. *)
+From Isobar Require Import Pat.SeededNest Pat.SeededNestProofs.
+
+Section Nested.
+  Variable R : Type.
+  Variable r_unit : R -> Z * R.
+  Variable r_below : Z -> R -> Z * R.
+  Variable r_seed : Z -> R.
+  Variables StC CfC St : Type.
+  Variable pc : pclass R St.
+  Hypothesis PP : pplain R St pc.
+  Notation ndo := (ndo R r_unit r_below r_seed StC CfC pc).
+  Notation nafter := (nafter R r_unit r_below r_seed StC CfC pc).
+  Notation nnew := (nnew R r_seed StC CfC pc).
+
+  (* after ANY history on Outer(Inner_0(..), ..) built with any throw-away seeds, reset() leaves exactly the newly constructed
+     object in which the parent has the parent's seed in force and every child the child's seed in force - class states,
+     all generators, all stored seeds; so every later output is that object's output *)
+  Theorem C04_nested_reset_is_fresh : forall s0 kids0 h, Forall (kplain R StC CfC) (map fst kids0) ->
+    fst (ndo (nafter (nnew s0 kids0) h) NReset) = nnew (pseed_of s0 h) (kshape_of R StC CfC h kids0).
+  Proof. exact (nested_reset_is_fresh R r_unit r_below r_seed StC CfC St pc PP). Qed.
+
+  Theorem C04_nested_reset_outputs : forall s0 kids0 h post, Forall (kplain R StC CfC) (map fst kids0) ->
+    nrun R r_unit r_below r_seed StC CfC pc (nnew s0 kids0) (h ++ NReset :: post) =
+    nrun R r_unit r_below r_seed StC CfC pc (nnew s0 kids0) h ++
+    nrun R r_unit r_below r_seed StC CfC pc (nnew (pseed_of s0 h) (kshape_of R StC CfC h kids0)) post.
+  Proof. exact (nested_reset_outputs R r_unit r_below r_seed StC CfC St pc PP). Qed.
+
+  (* seeding a new nest - parent and/or children, in any order, also repeatedly - gives the object constructed with those
+     seeds: nothing depends on what the constructors drew, and seed(s) of the parent spends none of its stream on the children *)
+  Theorem C04_nested_seeding : forall setup, seeding setup -> forall s0 kids0, Forall (kplain R StC CfC) (map fst kids0) ->
+    nafter (nnew s0 kids0) setup = nnew (pseed_of s0 setup) (kshape_of R StC CfC setup kids0).
+  Proof. exact (nested_seeding R r_unit r_below r_seed StC CfC St pc PP). Qed.
+
+  (* Outer(Inner(..).seed(t), ..).seed(s) consumed straight away IS the object reset() reproduces after any number of
+     next() / reset() calls *)
+  Theorem C04_nested_seeded_then_reset : forall s0 kids0 setup h, Forall (kplain R StC CfC) (map fst kids0) ->
+    seeding setup -> nplain h ->
+    fst (ndo (nafter (nafter (nnew s0 kids0) setup) h) NReset) = nafter (nnew s0 kids0) setup.
+  Proof. exact (nested_seeded_then_reset R r_unit r_below r_seed StC CfC St pc PP). Qed.
+
+  Theorem C04_parent_seed_leaves_children : forall o s, n_kids (fst (ndo o (NSeed s))) = n_kids o.
+  Proof. exact (parent_seed_leaves_children R r_unit r_below r_seed StC CfC St pc). Qed.
+End Nested.
+
+(* who qualifies: as a child every class whose contract `rewinds` has no configuration (PArpeggiator RANDOM, every machine
+   of Pat/Chance.v); as a parent the transcribed PSkip(pattern, play) and PCoin(probability) *)
+Theorem C04_nested_children_qualify : forall R StC CfC (cls : sclass R StC CfC) kcfg,
+  rewinds R StC CfC cls unit (fun _ => tt) kcfg -> kplain R StC CfC cls.
+Proof. exact rewinds_kplain. Qed.
+Theorem C04_nested_parents_qualify : forall R play, pplain R unit (pskip R play) /\ pplain R unit (pcoin R).
+Proof. intros R play. split; [apply pskip_pplain|apply pcoin_pplain]. Qed.
+Print Assumptions C04_nested_reset_is_fresh.
+Print Assumptions C04_nested_seeding.
+Print Assumptions C04_nested_seeded_then_reset.
+
+(* non-vacuity (replay generator; seed e = "the results recorded after the e-th seeding of any object of the program"):
+   PSkip(PWhite(0, 100), 0.5) with the child seeded (epoch 3), then the parent (epoch 2); three values, reset(), and the same
+   values again - the parent reads ITS epoch from the start, the child its own *)
+Example C04_nested_nonvacuous :
+  let h := 4503599627370496 in
+  let eps := [[]; []; [1; h + 1; 2; h + 2; 3]; [h; h / 2; h + h / 2; h / 4; 7]] in
+  let kidc := of_machine replay (white replay rp_unit false 0 100 0) in
+  let pc := pskip replay (1 # 2) in
+  kplain replay _ _ kidc /\
+  nrun replay rp_unit rp_below (rp_seed eps) _ _ pc (nnew replay (rp_seed eps) _ _ pc 0 [(kidc, 1)])
+       [NKidSeed 0%nat 3; NSeed 2; NNext; NNext; NNext; NReset; NNext; NNext; NNext; NNext] =
+  [Out (OZ 50); Out ONone; Out (OZ 75); Out (OZ 50); Out ONone; Out (OZ 75); Out ONone].
+Proof.
+  split; [apply (rewinds_kplain _ _ _ _ (fun _ k => k)), machine_rewinds|vm_compute; reflexivity].
+Qed.
